@@ -445,6 +445,10 @@ def q_exists(vs, guard, body):
 
 def val_eq(a, b):
     """structural equality -> bool / z3 Bool"""
+    if isinstance(a, tuple):
+        a = PyList(list(a), None, True)
+    if isinstance(b, tuple):
+        b = PyList(list(b), None, True)
     if a is None or b is None:
         if a is None and b is None:
             return True
@@ -507,6 +511,9 @@ def str_const(s):
 
 def arith(op, a, b, ctx=None, path=None, line=None):
     """scalar arithmetic with Python semantics on ints (exact) and reals (S2)."""
+    for x in (a, b):
+        if isinstance(x, Obj) and "__arith__" in x.fields:
+            return x.fields["__arith__"](op, a, b, ctx, path, line)
     if isinstance(a, (Arr,)) or isinstance(b, (Arr,)):
         return arr_arith(op, a, b, ctx, path, line)
     if isinstance(op, ast.Add) and isinstance(a, PyList) and isinstance(b, (PyList, Opaque, SymSeq, SliceOf)):
@@ -590,13 +597,13 @@ def real_pow(a, b):
 
 
 def real_mod(a, b, ctx, path, line):
-    """Python float % : result r with a = q*b + r, 0 <= r < b for b > 0 (numpy contract)."""
+    """Python / numpy float % for a positive modulus: a - b*floor(a/b)  (floor = SMT to_int on reals)."""
     a, b = to_z3(a, "real"), to_z3(b, "real")
-    r = FMOD(a, b)
-    if path is not None:
-        q = z3.Int(fresh_name("q"))
-        path.assume(z3.Implies(b > 0, z3.And(r >= 0, r < b)), a == z3.ToReal(q) * b + r)
-    return r
+    if ctx is not None and path is not None:
+        ctx.vc(f"modulus-positive@{line}", path, b > 0, "defined", line, note="% is encoded for a positive modulus")
+    if z3.is_rational_value(b) and b.numerator_as_long() == 1 and b.denominator_as_long() == 1:
+        return a - z3.ToReal(z3.ToInt(a))
+    return a - b * z3.ToReal(z3.ToInt(a / b))
 
 
 def arr_arith(op, a, b, ctx, path, line):
@@ -624,6 +631,10 @@ def arr_arith(op, a, b, ctx, path, line):
 
 
 def compare(op, a, b):
+    if not isinstance(op, (ast.Is, ast.IsNot, ast.In, ast.NotIn)):
+        for x in (a, b):
+            if isinstance(x, Obj) and "__cmp__" in x.fields:
+                return x.fields["__cmp__"](op, a, b)
     if isinstance(op, (ast.Is, ast.IsNot)):
         if a is None or b is None or isinstance(a, bool) or isinstance(b, bool):
             if (a is None or isinstance(a, bool)) and (b is None or isinstance(b, bool)):
@@ -747,6 +758,8 @@ class Executor:
         if isinstance(node.op, ast.Not):
             return b_not(truth(v))
         if isinstance(node.op, ast.USub):
+            if isinstance(v, Obj) and "__arith__" in v.fields:
+                return v.fields["__arith__"](ast.Mult(), -1, v, self.ctx, path, node.lineno)
             if isinstance(v, Arr):
                 return arr_arith(ast.Sub(), 0, v, self.ctx, path, node.lineno)
             return -v if not is_z3(v) else -v
@@ -810,7 +823,7 @@ class Executor:
         v = self.ev(node.value, path)
         idx = self.ev(node.slice, path)
         if isinstance(v, Obj) and "__getitem__" in v.fields:
-            return v.fields["__getitem__"](self, path, idx, node)
+            return v.fields["__getitem__"](self, path, v, idx, node)
         if isinstance(v, (SliceOf, SymSeq, Arr)) and self.ctx.emit and not self.spec_mode and is_int(idx) and getattr(self.ctx, "bounds_checks", False):
             n = length(v)
             self.ctx.vc(f"index-in-bounds@{node.lineno}", path, b_and(compare(ast.LtE(), -n, idx) if False else True, compare(ast.Lt(), idx, n)), "defined", node.lineno)
@@ -825,7 +838,11 @@ class Executor:
 
     def getattr(self, v, attr, path, node=None):
         if isinstance(v, NameRef):
-            return NameRef(v.dotted + "." + attr)
+            d = v.dotted + "." + attr
+            known = self.ctx.lib.get(d)
+            if isinstance(known, Obj):       # a library *value* (e.g. astropy.units.day)
+                return known
+            return NameRef(d)
         if isinstance(v, Obj):
             if attr in v.fields:
                 f = v.fields[attr]
